@@ -57,7 +57,7 @@ class SymChoices(R.Choices):
             if unused and sp == len(data):
                 sp = len(data) - 1
             a, b = [0] + data[:sp], [unused] + data[sp:]
-            if self.seg == 1:
+            if self.seg == 1 or self.seg == 4:
                 return [a, b]
             if self.seg == 2:
                 return [("C", [a], False), b]
@@ -66,6 +66,9 @@ class SymChoices(R.Choices):
         if sp > len(c):
             sp = len(c)
         a, b = c[:sp], c[sp:]
+        if self.seg == 4:
+            # X.690 8.7.3: "zero, one or more" segments - none for an empty string, otherwise a single one
+            return [c] if c else []
         if self.seg == 1:
             return [a, b]
         if self.seg == 2:
@@ -130,7 +133,7 @@ def streams_sub(data):
     return SymStream(data) if streams.SYMBOLIC else io.BytesIO(bytes(data))
 
 
-FORMP = {"pad0": I(0, 2), "padn": I(0, 2), "indef0": B, "indefn": B, "true_octet": I(1, 255), "perm": I(0, 5), "keepdef": B, "seg": I(0, 3), "sp": I(0, 3)}
+FORMP = {"pad0": I(0, 2), "padn": I(0, 2), "indef0": B, "indefn": B, "true_octet": I(1, 255), "perm": I(0, 5), "keepdef": B, "seg": I(0, 4), "sp": I(0, 3)}
 
 
 def _relevant(e):
@@ -170,7 +173,7 @@ FAMILIES = {
 OBLIGATIONS = []
 for e in all_entries():
     p = _relevant(e)
-    sh = [{"seg": C(s)} for s in range(4)] if p["seg"][0] != "const" else None
+    sh = [{"seg": C(s)} for s in range(5)] if p["seg"][0] != "const" else None
     OBLIGATIONS.append(entry_obl("forms", forms, e, extra=p, narrow=True, budget=120, thorough_budget=400, extra_shards=sh, tiers=("thorough",)))
     if e.id not in QUICK_IDS:
         continue
@@ -183,7 +186,7 @@ for e in all_entries():
             continue  # tag stacks over constructed types: covered by the len/indef families in quick, by the product in thorough
         for d in free:
             q[d] = p[d]
-        fsh = [{"seg": C(s_)} for s_ in range(4)] if fam == "forms_seg" else None
+        fsh = [{"seg": C(s_)} for s_ in range(5)] if fam == "forms_seg" else None
         OBLIGATIONS.append(entry_obl(fam, forms, e, extra=q, narrow=True, budget=90, tiers=("quick",), extra_shards=fsh))
 OBLIGATIONS.append(Obl("len_forms", len_forms, {"n": I(0, 2 ** 40), "pad": I(0, 2), "x": BYTE}, thorough={"n": I(0, 2 ** 62)}, budget=60,
                        doc="decoder length octets: every n in range, minimal and over-long forms"))
